@@ -3,12 +3,45 @@
 import json, os
 HERE = os.path.dirname(os.path.abspath(__file__))
 
+LEX_NOTE = ('Trusted: rustc (macro expansion of the real proc macro + MIR dump), the MIR executor (validated on every run against the natively compiled '
+            'lexers on concrete inputs), z3, summaries of the std items the runtime calls (Peekable, Option, RangeInclusive::contains, char::len_utf8), '
+            'the reference interpreter (Brzozowski-derivative automaton, literal reading of README/property). unicode-width is an uninterpreted function. '
+            'Outside the claim: lexer definitions not in the generated families, more than N remaining characters per next() call, '
+            'more than 2 (quick) / 3 (thorough) dynamic action decisions inside one call, Loc fields within 4(N+1) of the integer limits, definitions over the per-definition time budget (listed in evidence).')
+LEX_TECH = 'MIR symbolic execution of the macro-expanded lexer + lexgen_util against a reference interpreter, z3 decides every branch and comparison; inductive step from arbitrary boundary state; native replay'
+
+
+def lex(text):
+    return dict(text=text + ' Programs (lexer definitions) are enumerated/sampled; inputs (<= N remaining characters over all of char; N=4 quick, 5 thorough), start location, error payload and action decisions are solver variables; each call is checked from an arbitrary boundary state and shown to end in a boundary state again, so call histories of any length are covered by induction.',
+                note=LEX_NOTE, technique=LEX_TECH, ref='DESIGN.md sections 2 and 3')
+
+
 CLAIMED = {
+ 'C01': lex('Maximal munch / first-rule priority / rewind: item kind, rule id and lexeme of every next() call equal the reference tokenisation, on curated rewind definitions (incl. the quoted counterexample) and seeded random rule sets with shared prefixes.'),
+ 'C02': lex('Single-rule lexers over bounded-exhaustive small regex trees, operator-law pairs and random trees: the token length on every input equals the longest prefix in the documented language (so accept/reject of every string up to N is decided).'),
+ 'C03': lex('Multi-rule-set definitions with switch / switch_and_return / dynamic decisions: the item is one the active rule set produces and after every call __state == __initial_state == the entry state the real `switch` assigns to the rule set the reference is in.'),
+ 'C04': lex('Rules with right contexts of every shape (multi-character literals, sets, repetition, nullable, `$`): match iff the context matches the following input, lexeme/locations exclude the context, failed contexts fall through; a context the macro cannot compile is reported as a violation.'),
+ 'C05': lex('End-of-input protocol: `$` only at the end and zero-width, preferred over the same lexeme without it, None in Init at a boundary, error elsewhere, done flag absorbing, no character dropped (input position after each call equals the reference).'),
+ 'C06': lex('All Loc values of tokens, action invocations (match_loc) and the post-call match start/end equal the reference scan (newline, tab=4, uninterpreted display width, UTF-8 length) from a symbolic start location, incl. after rewinds.'),
+ 'C07': lex('InvalidToken exactly when the reference has no match; Custom(e) carries the symbolic payload unchanged; both located at the lexeme start.'),
+ 'C08': lex('After a failure: input position, empty match, rule set Init in both __state and __initial_state, user state untouched - the post-state is the Init boundary state, so by induction all later calls are the reference from there.'),
+ 'C09': lex('No panic / overflow / unreachable on any path of next() (compiler-inserted checks are real assertions in MIR), every path terminates within the step bound, the saved match is cleared, every call accounts for input or the single end-of-input event.'),
+ 'C10': lex('Action log (rule id, match_loc, peek) equals the reference for every decision history (return / continue / reset+continue / switch / switch_and_return / Ok / Err chosen by solver variables), one invocation per selected match, none for abandoned candidates, sugar forms as their desugaring, user state touched only by actions.'),
  'C11': dict(
-   text='Bounded symbolic execution of the real MIR of RangeMap::insert / insert_ranges / remove_ranges / Range::contains from an ARBITRARY valid map (inductive step), every path decided by z3 for all end points, values and code points; maps of at most K ranges (K=3 quick, 4 thorough).',
-   note='Trusted: rustc MIR dump, the MIR executor (validated on every run against the natively compiled functions on concrete cases), z3, summaries of the std items called (Vec push/extend/iterators, cmp::min/max, Ord::cmp, RangeInclusive accessors, checked +/-). Outside the claim: maps with more than K ranges, the regex_to_range_map evaluation order (covered end to end by C02 lexers).',
+   text='Bounded symbolic execution of the real MIR of RangeMap::insert / insert_ranges / remove_ranges / Range::contains from an ARBITRARY valid map (inductive step), every path decided by z3 for all end points, values and code points; maps of at most K ranges (K=3 quick, 4 thorough). Class expressions end to end are covered by the C02 lexers with `#` chains.',
+   note='Trusted: rustc MIR dump, the MIR executor (validated on every run against the natively compiled functions on concrete cases), z3, summaries of the std items called (Vec push/extend/iterators, cmp::min/max, Ord::cmp, RangeInclusive accessors, checked +/-). Outside the claim: maps with more than K ranges.',
    technique='MIR symbolic execution + z3 (integer encoding with explicit wrap-around), inductive step from arbitrary valid state, native replay',
    ref='DESIGN.md section 3 C11, section 1.2'),
+ 'C13': dict(
+   text='Kani/CBMC harness per built-in: member(TABLE, c) == rust_predicate(c) for an arbitrary char c over the real char_ranges.rs tables and the real core/unicode_xid predicates (18 of 20 names; alphabetic and alphanumeric exceed the unwinding reach of CBMC in core::unicode skip_search and are only scanned natively).',
+   note='Trusted: Kani 0.68/CBMC 6.11, the harness binary search (tables checked sorted natively), equality of the Unicode version of the core library Kani uses and the repository toolchain (asserted). Outside the solver claim: alphabetic, alphanumeric table contents (native exhaustive scan only); name->table mapping and generated lookup shapes are exercised by C02/C01 lexers with small built-ins only.',
+   technique='Kani/CBMC bounded model checking of table lookup vs real predicate with symbolic char; native exhaustive scan as replay',
+   ref='DESIGN.md section 3 C13', engine='kani'),
+ 'C18': dict(
+   text='Inductive cut-point verification of the real MIR of generate_char_fn_ranges: predicate = uninterpreted function, loop counter arbitrary, vector abstracted by ghosts; base/step/exit obligations discharged by z3 - no bound on predicate or code points. Failing obligations give a concrete predicate replayed against the native generator.',
+   note='Trusted: MIR executor, z3, std summaries (RangeInclusive iteration, char::try_from, Option::take/is_none, Vec::push), the invariant (part of the check; a too-weak invariant yields inconclusive, not a violation).',
+   technique='MIR symbolic execution + z3, loop invariant at a cut point with uninterpreted predicate, native replay',
+   ref='DESIGN.md section 3 C18'),
 }
 
 NOT_YET = {}
@@ -54,7 +87,8 @@ def main():
             'add_only': True,
         },
         'engines': [
-            {'name': 'mirse', 'path': 'lib/mirse', 'serves_properties': sorted(CLAIMED),
+            {'name': 'kani', 'path': 'lib/c13.py', 'serves_properties': ['C13'], 'kind_free_text': 'Kani 0.68 / CBMC 6.11 proof harnesses generated into a scratch crate that #[path]-includes /repo/crates/lexgen/src/char_ranges.rs'},
+            {'name': 'mirse', 'path': 'lib/mirse', 'serves_properties': sorted(p for p in CLAIMED if p != 'C13'),
              'kind_free_text': 'path-based symbolic executor over rustc -Zunpretty=mir dumps regenerated from /repo on every run; z3 decides every branch and every post-condition; counterexamples replayed natively'},
         ],
         'checks': checks,
